@@ -205,20 +205,24 @@ theorem to_radix_canonical (b n : Nat) (hb : 2 ≤ b ∧ b ≤ 64) :
 
 example : toRadix 16 255 = some "ff".toList ∧ toRadix 64 4095 = some "__".toList ∧
     toRadix 2 (2 ^ 70) = some ("1" ++ String.ofList (List.replicate 70 '0')).toList := by decide
-/-- "malformed input is an error" for from_radix — the part that holds: a character outside the
-    64-symbol table is rejected.
-    FULL statement (not provable, FALSE of radix.jq:1-15): also a digit ≥ base and the empty
-    string must be errors.  from_radix never compares a digit with `$base` and reduces the empty
-    list to 0; see the two witnesses below (known findings radix-digit-not-below-base,
-    radix-empty-string; the driver answers KNOWN for exactly these input classes). -/
-theorem from_radix_reject_partial (b : Nat) (s : List Char) (h : ∃ c ∈ s, radixVal c = none) :
+/-- malformed input is an error: the empty string, a character outside the 64-symbol table, or a
+    digit that is not below the base (radix.jq as repaired by /repo 1a4271bf; `validDigit b c` =
+    c is in the table with a value < b) -/
+theorem from_radix_reject (b : Nat) (s : List Char) (h : s = [] ∨ ∃ c ∈ s, validDigit b c = false) :
     fromRadix b s = none := fromRadix_reject b s h
 
-theorem from_radix_bad_digit_witness : fromRadix 2 "9".toList = some 9 ∧ fromRadix 10 "ff".toList = some 165 := by
-  decide
+/-- … and exactly that: every non-empty string of valid digits is accepted -/
+theorem from_radix_accept (b : Nat) (s : List Char) (hne : s ≠ []) (h : ∀ c ∈ s, validDigit b c = true) :
+    (fromRadix b s).isSome = true := fromRadix_accept b s hne h
 
-theorem from_radix_empty_witness : fromRadix 16 [] = some 0 := by decide
-
-example : ∃ c ∈ "1-".toList, radixVal c = none := by decide
+example : fromRadix 2 "9".toList = none ∧ fromRadix 10 "ff".toList = none ∧ fromRadix 16 [] = none ∧
+    fromRadix 16 "Z".toList = none ∧ fromRadix 10 "1-".toList = none ∧ fromRadix 16 "00ff".toList = some 255 := by decide
+example : ∃ c ∈ "19".toList, validDigit 8 c = false := by decide
+example : "7f".toList ≠ [] ∧ ∀ c ∈ "7f".toList, validDigit 16 c = true := by decide
+/-- the regression model (behaviour before the repair; former known findings
+    radix-digit-not-below-base, radix-empty-string) accepted these -/
+example : fromRadixLegacy 2 "9".toList = some 9 ∧ fromRadixLegacy 16 [] = some 0 := by decide
+/-- to_radix: base < 2 and base > 64 are errors -/
+example : toRadix 1 5 = none ∧ toRadix 0 5 = none ∧ toRadix 65 5 = none := by decide
 
 end Props.C14
